@@ -49,6 +49,15 @@ THEOREMS = [
     'Nb.C07.histories_preserve',
     'Nb.C07.orig_fault_leaves_slope_orig_counterexample',
     'Nb.C07.orig_alias_changes_header_dtype_orig_counterexample',
+    'Nb.C07.maps_file_detects_every_map',
+    'Nb.C07.maps_file_skeleton_agrees',
+    'Nb.C07.view_self_overwrite_keeps_data',
+    'Nb.C07.maps_file_orig_misses_views_orig_counterexample',
+    'Nb.C07.byname_binds_first',
+    'Nb.C07.byname_retry_correct',
+    'Nb.C07.write_data_never_stores_into_input',
+    'Nb.C07.write_data_skeleton_agrees',
+    'Nb.C07.inplace_scaling_stores_into_input_counterexample',
 ]
 ASSUMPTIONS = [
     'hand-written Lean step-machine model of the to_file_map control flow (Model/C07.lean), tied to the code by '
@@ -59,16 +68,29 @@ ASSUMPTIONS = [
     'external to the model (parameters `Env`, values observed on clean reference runs of the real code): dtype '
     'alias resolution, make_array_writer (raises or not, slope/inter, number and size of write calls), whether '
     'hdr.set_slope_inter refuses the computed slope (HeaderDataError inside the try), scipy.io.savemat write sizes, '
-    'NIfTI extension sizes; header float fields are opaque bit patterns; affines are integer-valued (float64 exact)',
+    'NIfTI extension sizes; header float fields are opaque bit patterns',
     'update_header() is a model step that may change the non-consumable header bytes ONCE (idempotent by '
     'construction); WHICH bytes result is external: ids supplied by the correspondence from the real update_header '
     '(edit stream: in-place affine edits and header edits between saves). CIFTI-2: the normalisation of intent / '
     'pixdim / extension is still pre-applied by a first save and not exercised with edits',
-    'data sources: in-memory array, ArrayProxy with or without memory map; files are identified by identity '
-    '(inode), never by spelling; a truncating open under a live memory map yields data id 0 (garbage) — SIGBUS, '
-    'zeros and stale bytes are not distinguished. Self-overwrites are generated only with an unchanged on-disk '
-    'layout (same dtype, no rescaling): layout-changing self-saves leave a stale proxy (known C09 findings) and '
-    'are outside this stream; faults cannot be injected into by-name saves',
+    'data sources: in-memory array, ArrayProxy with or without memory map, an array HELD by the image that views a '
+    'memory map through any chain of owners (ndarray bases, memoryviews, array-interface holders; the chain is '
+    'read off the real object, `maps_file` is modelled on it and compared on 13 ways of making such arrays, with an '
+    'address-range ground truth in the oracle); files are identified by identity (inode), never by spelling; a '
+    'truncating open under a live memory map yields data id 0 (garbage) — SIGBUS, zeros and stale bytes are not '
+    'distinguished. Self-overwrites are generated only with an unchanged on-disk layout (same dtype, no '
+    'rescaling): layout-changing self-saves leave a stale proxy (known C09 findings) and are outside this stream',
+    'by-name saves with faults (stream `nrun`): the file objects nibabel opens ITSELF (plain, gzip, bz2, zstd sinks) '
+    'are wrapped by patching Opener._get_opener_argnames; faults are injected at the calls nibabel makes on the '
+    'sink (write / seek / tell / flush / close), not inside the compression library or the OS buffer; bz2 / zstd sinks '
+    'do not support seek() when writing (seek_tell absorbs the error on every save): for them the nrun cases are '
+    'oracle-only (state, retry bytes, decoding, byte identity), the I/O log is compared for plain and gzip sinks',
+    'the memory layout / byte order / writability of the image\'s own array is not in the model (the writer is '
+    'external): that the array object, its memory (bit-exact, including hidden elements of the owning array), '
+    'strides and flags are unchanged after every save, failed or not, is checked by the oracle on the real code only',
+    'affines: integer-valued, or multiples of 1/64 (SPM classes: the model computes M / mat on 64·A, exact because '
+    'they are linear in A), or arbitrary float64 for the classes whose model uses the affine only through its '
+    'identity (entries passed as raw bit patterns)',
     'bytes written are abstracted to the list of (piece, state it was computed from); that equal abstract output '
     'means equal bytes is checked by the first-seen ids and, independently, by the oracle against a fresh image',
     'gzip: the member header is modelled after CPython GzipFile._write_gzip_header (validated each run against '
@@ -92,7 +114,19 @@ RULE = ('streams: `faults` = for each of the 9 image classes x {caller file obje
         'sub/../x) saved BY NAME in a child process onto their own source (spelled abs/rel/./x/sub/../x/symlink) and '
         'elsewhere, with dtype= overrides; `matload` = .mat files with {M, mat, both, neither} x writer flip x reader '
         'flip x affine; `gzhdr` = gzip header of nibabel sink and plain GzipFile x level x clock x name; `byname` = '
-        'three saves by file name per class x {plain,.gz,.bz2,.zst} x {native, int16} with the clock moved. A case is '
+        'three saves by file name per class x {plain,.gz,.bz2,.zst,.mgz} x {native, int16} x random array layout with '
+        'the clock moved and the base name changed; `nrun` = saves BY NAME (to_filename | nibabel.save | set_filename + '
+        'to_file_map()) per class x {plain,.gz (+.bz2,.zst thorough)} x configuration with an OSError at EVERY I/O call '
+        'index of the files nibabel opened itself (and byte budgets), each followed by a save under another name at '
+        'another clock time and a retry onto the partially written destination, I/O log compared with the model; '
+        'layout dimension (streams faults / hist / byname / nrun): the image\'s array is C | F | transposed view | '
+        'strided view of a larger array | negative strides | read-only | non-native byte order | 1-D | singleton '
+        'dims, crossed with saves that scale / cast, fault at every k; affines integer, multiples of 1/64 and general '
+        'float; `mapsfile` = volumeutils.maps_file on 13 ways of reaching (or not) a memory map x map mode x dtype; '
+        '`wdata` = volumeutils._write_data with EVERY combination of its eight branches (pre-clip, in-cast, intercept, '
+        'slope, post-clip, nan fill, NaNs present, out cast) x array layout x order, memory of the input compared '
+        'before / after; `loaded` also has images HOLDING np.asarray(memmap) / np.frombuffer(mmap) / memoryview / as_strided views of '
+        'their source file saved onto it. A case is '
         'non-trivial when it contains a fault, a dtype request, an edit or a by-name save; distinct by (class, mode, '
         'configuration, ops).')
 PENDING_FINDINGS = []
@@ -106,6 +140,20 @@ AFFS = [
     [[0, 2, 0, 6], [3, 0, 0, -9], [0, 0, -4, 12], [0, 0, 0, 1]],
     [[1, 2, 3, 4], [-2, 5, 1, -7], [3, -1, 6, 9], [0, 0, 0, 1]],
 ]
+# non-integer affines: multiples of 1/64 (any class; the SPM `.mat` arithmetic stays exact) and a general one
+# (zooms 2.4 / 1.7, oblique) for the classes whose model does not compute with the affine
+AFFS_DYADIC = [
+    [[2.5, 0, 0.25, -10.5], [0, -3.125, 0, 20], [0.5, 0, 4, -30.75], [0, 0, 0, 1]],
+    [[-0.859375, 0.015625, 0, 90.5], [0.046875, 0.859375, -0.125, -126.25], [0, 0.109375, 1.5, -72.015625], [0, 0, 0, 1]],
+]
+AFF_GENERAL = [[-2.3928, 0.0419, 0.1712, 91.337], [0.0331, 2.3871, -0.2466, -126.71], [-0.1741, -0.2421, 1.6823, -72.093],
+               [0, 0, 0, 1]]
+
+
+def float_affs(cls):
+    return AFFS_DYADIC + ([] if cls in ('spm99', 'spm2') else [AFF_GENERAL])
+
+
 ANALYZE_FAMILY = ('analyze', 'spm99', 'spm2')
 CLASSES = ['analyze', 'spm99', 'spm2', 'n1pair', 'n1single', 'n2pair', 'n2single', 'mgh', 'cifti2']
 NIFTI = ('n1pair', 'n1single', 'n2pair', 'n2single')
@@ -204,7 +252,11 @@ def regen():
             'read from the AST of openers.py: nib_gzip_independent, repeat_identical_gz re-proved over them',
             'Nb.C07.Gen skeletons (ordered header mutations / I/O / restores / aliasing of self._affine / memmap copy '
             'of the six to_file_map / to_filename methods, from the AST) equal the skeleton the step machine is written '
-            'for: skeleton_agrees, analyze_try_order, analyze_finally_is_restore']
+            'for: skeleton_agrees, analyze_try_order, analyze_finally_is_restore',
+            'Nb.C07.Gen skeleton of volumeutils.maps_file (every statement: the loop over owners, the two map classes, '
+            'memoryview.obj / base) equals the one mapsFile is written for: maps_file_skeleton_agrees',
+            'Nb.C07.Gen skeleton of volumeutils._write_data (every statement of the slice loop) equals the one sliceBody '
+            'is written for: write_data_skeleton_agrees (write_data_never_stores_into_input is about that body)']
 
 
 # ------------------------------------------------------------------ syntactic control-flow skeleton (Leg T)
@@ -258,9 +310,10 @@ def _base_name(t):
     return t.id if isinstance(t, ast.Name) else None
 
 
-def skeleton(func):
-    """ordered tokens of everything in `func` that is not a neutral local computation; statements are flattened
-    with their control context (`if(test): `, `else(test): `, `try: `, `finally: `, `with(item): `)"""
+def skeleton(func, keep_all=False):
+    """ordered tokens of everything in `func` that is not a neutral local computation (`keep_all`: of every
+    statement); statements are flattened with their control context (`if(test): `, `else(test): `, `try: `,
+    `finally: `, `with(item): `, `while(test): `)"""
     out = []
 
     def block(stmts, ctx, alias):
@@ -271,7 +324,7 @@ def skeleton(func):
     def emit(ctx, text):
         # (region, text): region = the context up to and including the innermost try / finally / except frame,
         # the conditions inside that region stay in front of the statement text
-        frames = re.findall(r'(?:if|else|except)\(.*?\): |try: |finally: |with: ', ctx)
+        frames = re.findall(r'(?:if|else|except|while|for)\(.*?\): |try: |finally: |with: ', ctx)
         if ''.join(frames) != ctx:
             raise SkeletonError('context ' + ctx)
         cut = max([i + 1 for i, f in enumerate(frames) if f in ('try: ', 'finally: ') or f.startswith('except(')] or [0])
@@ -295,7 +348,7 @@ def skeleton(func):
                     emit(ctx, 'ALIAS-OF-AFFINE ' + _one_line(st))
                     return alias | {names[0]}
                 alias = alias - set(names)
-                if _neutral_expr(st.value):
+                if _neutral_expr(st.value) and not keep_all:
                     return alias
                 emit(ctx, _one_line(st))
                 return alias
@@ -329,6 +382,18 @@ def skeleton(func):
             a1 = block(st.body, ctx + f'if({t}): ', set(alias))
             a2 = block(st.orelse, ctx + f'else({t}): ', set(alias))
             return a1 | a2
+        if isinstance(st, ast.For):
+            if st.orelse:
+                raise SkeletonError('for/else')
+            head = f'{_one_line(st.target)} in {_one_line(st.iter)}'
+            emit(ctx, 'for ' + head)
+            return alias | block(st.body, ctx + f'for({head}): ', set(alias))
+        if isinstance(st, ast.While):
+            if st.orelse:
+                raise SkeletonError('while/else')
+            t = _one_line(st.test)
+            emit(ctx, 'while ' + t)
+            return alias | block(st.body, ctx + f'while({t}): ', set(alias))
         if isinstance(st, ast.Try):
             if st.orelse:
                 raise SkeletonError('try/else')
@@ -367,6 +432,18 @@ def all_skeletons(repo):
     for key, path, cls in TARGETS:
         tree = ast.parse(open(os.path.join(repo, 'nibabel', path)).read())
         res[key] = skeleton(find_func(tree, cls, 'to_filename' if key == 'ToFilename' else 'to_file_map'))
+    # the module-level predicate `maps_file` that decides the copy: EVERY statement
+    tree = ast.parse(open(os.path.join(repo, 'nibabel', 'volumeutils.py')).read())
+    funcs = [n for n in tree.body if isinstance(n, ast.FunctionDef) and n.name == 'maps_file']
+    if len(funcs) != 1:
+        raise LookupError('volumeutils.maps_file')
+    res['MapsFile'] = skeleton(funcs[0], keep_all=True)
+    # the slice loop that turns the image's array into bytes: EVERY statement (which of them rebind `dslice` to fresh
+    # memory and which store in place is what `sliceBody` models)
+    funcs = [n for n in tree.body if isinstance(n, ast.FunctionDef) and n.name == '_write_data']
+    if len(funcs) != 1:
+        raise LookupError('volumeutils._write_data')
+    res['WriteData'] = skeleton(funcs[0], keep_all=True)
     return res
 
 
@@ -565,7 +642,51 @@ def make_array(spec):
     if dt.kind in 'iu':
         a = np.round(a)
         a.flat[0], a.flat[1] = spec['lo'], spec['hi']
-    return a.astype(dt)
+    return lay_out(a.astype(dt), spec.get('layout', 'C'))
+
+
+LAYOUTS = ['C', 'F', 'Fview', 'strided', 'neg', 'ro', 'Fro', 'swap', 'Fswap']
+
+
+def lay_out(a, layout):
+    """the same values in another memory layout: C | F (owns its Fortran-ordered memory, what get_fdata() returns) |
+    Fview (transposed view of a C array) | strided (every other element of a larger array) | neg (negative
+    strides) | ro / Fro (read-only) | swap / Fswap (non-native byte order)"""
+    if layout == 'C':
+        return a
+    if layout == 'F':
+        return np.asfortranarray(a) if a.ndim > 1 else a.copy()
+    if layout == 'Fview':
+        return np.ascontiguousarray(a.T).T
+    if layout == 'strided':
+        big = np.zeros(tuple(2 * n for n in a.shape), dtype=a.dtype)
+        v = big[tuple(slice(None, None, 2) for _ in a.shape)]
+        v[...] = a
+        return v
+    if layout == 'neg':
+        rev = tuple(slice(None, None, -1) for _ in a.shape)
+        return np.ascontiguousarray(a[rev])[rev]
+    if layout in ('ro', 'Fro'):
+        b = lay_out(a, 'F' if layout == 'Fro' else 'C').copy(order='K')
+        b.setflags(write=False)
+        return b
+    if layout in ('swap', 'Fswap'):
+        b = lay_out(a, 'F' if layout == 'Fswap' else 'C')
+        return b.astype(b.dtype.newbyteorder('S'), order='K')
+    raise ValueError(layout)
+
+
+def array_memory(a):
+    """(digest of the raw memory of the array that owns the data of `a`, layout of `a`) for an ndarray"""
+    if not isinstance(a, np.ndarray) or isinstance(a, np.memmap):
+        return None
+    owner = a
+    while isinstance(owner.base, np.ndarray):
+        owner = owner.base
+    if isinstance(owner, np.memmap) or owner.base is not None:
+        return None
+    return (hashlib.sha1(owner.tobytes(order='A')).hexdigest(), a.strides, a.shape, a.dtype.str,
+            bool(a.flags.writeable), bool(a.flags.c_contiguous), bool(a.flags.f_contiguous))
 
 
 PRIMARY = {'analyze': '.img', 'spm99': '.img', 'spm2': '.img', 'n1pair': '.img', 'n2pair': '.img',
@@ -627,6 +748,17 @@ def make_source(d, root):
                 os.symlink(stem + e, link)
 
 
+def rewrap(cls, img, ld):
+    """`load['wrap']`: a NEW image of the same class that HOLDS an array viewing the memory map of the loaded
+    image's file (np.asarray(memmap), np.frombuffer(mmap), a memoryview, as_strided), same affine and header"""
+    if not ld.get('wrap'):
+        return img
+    mm = np.asanyarray(img.dataobj)
+    if not isinstance(mm, np.memmap):
+        raise RuntimeError('wrap needs a memory-mapped source')
+    return klass_of(cls)(wrap_array(ld['wrap'], mm), img.affine, img.header)
+
+
 def build(d, harmonise=True):
     """the image described by the configuration part of `d` (fresh, deterministic)"""
     n = nib()
@@ -638,6 +770,7 @@ def build(d, harmonise=True):
         make_source(d, root)
         img = klass_of(cls).from_filename(os.path.join(root, target_name(cls, 'vol', d['load']['cext'])),
                                           mmap=d['load']['mmap'])
+        img = rewrap(cls, img, d['load'])
         if d.get('setdt'):
             img.set_data_dtype(np.dtype(d['setdt']))
         if d.get('alias'):
@@ -700,16 +833,41 @@ def affine_of(d):
     return a
 
 
+AFF_DYADIC = 64
+
+
+def _is_int_aff(a):
+    return a is None or a in ('none', 'default') or all(float(v) == int(v) for row in a for v in row)
+
+
+def aff_scale(d):
+    """SPM classes (the model computes the `.mat` matrices from the affine): 1 when every affine of the history is
+    integer-valued, else AFF_DYADIC — the affines are multiples of 1/64, the model works on 64·A, which is exact
+    because M and mat are LINEAR in A and float64 products of such numbers are exact. Other classes: 0 = the affine
+    enters the model only through its identity, entries are passed as raw float64 bit patterns."""
+    affs = [d.get('aff', 'default')] + [op[2] for op in d.get('ops', []) if op[0] == 'E' and op[1] == 'aff']
+    if all(_is_int_aff(a) for a in affs):
+        return 1
+    return AFF_DYADIC if d['cls'] in ('spm99', 'spm2') else 0
+
+
+def aff_tok(a, scale):
+    """16 integers standing for the 4x4 float affine `a` under `aff_scale`"""
+    flat = [float(v) for row in a for v in row]
+    if scale == 0:
+        return ','.join(str(int.from_bytes(np.float64(v).tobytes(), 'little')) for v in flat)
+    if any(v * scale != int(v * scale) for v in flat):
+        raise ValueError('affine is not a multiple of 1/%d' % scale)
+    return ','.join(str(int(v * scale)) for v in flat)
+
+
 def aff_token(d):
     if d['cls'] == 'cifti2':
         return '-'
     a = affine_of(d)
     if a is None:
         return '-'
-    flat = [float(v) for row in a for v in row]
-    if any(v != int(v) for v in flat):
-        raise ValueError('non-integer affine')
-    return ','.join(str(int(v)) for v in flat)
+    return aff_tok(a, aff_scale(d))
 
 
 def xflip_of(cls, hdr):
@@ -749,12 +907,17 @@ def full_state(cls, img):
     aff = getattr(img, '_affine', None)
     st['affine'] = None if aff is None else np.asarray(aff).tobytes()
     st['header.default_x_flip'] = xflip_of(cls, hdr)
+    # the image's OWN array object: same object, same memory (bit-exact, including the elements of the owning
+    # array that the image does not show), same strides / byte order / flags
+    st['dataobj is the same object'] = id(getattr(img, '_dataobj', None))
+    st['memory and layout of the image\'s array'] = array_memory(getattr(img, '_dataobj', None))
     exts = getattr(hdr, 'extensions', None)
     if exts is not None:
         st['extensions'] = repr([(e.get_code(), e.get_sizeondisk()) for e in exts])
     return st
 
 
+OBJECT_KEYS = ('dataobj is the same object', "memory and layout of the image's array")
 HDR_EDITS = ['descrip', 'zooms', 'zooms2', 'dbname']
 
 
@@ -808,7 +971,7 @@ def edit_plan(d):
             pend = first_seen(seen, rest_digest(cls, header_of(cls, c)))
             tok = '='
             if op[1] == 'aff':
-                tok = ','.join(str(int(v)) for row in op[2] for v in row)
+                tok = aff_tok(op[2], aff_scale(d))
             plan[j] = (tok, now, '-' if pend == now else pend)
         elif op[0] in ('S', 'OS', 'N'):
             # a healthy save of the scratch image: harmonises exactly when the real save gets as far as
@@ -1008,7 +1171,7 @@ def protocol_line(d):
             ops.append('E:%s:%s:%s' % plan[jop])
             continue
         if op[0] in ('S', 'OS'):
-            _, dt, fault, fm = op
+            _, dt, fault, fm = op[:4]
             dts = '-' if dt is None else ('ac' if dt == 'compat' else 'as' if dt == 'smallest' else
                                           'c%d' % code_of(cls, dt))
             fs = '-' if fault is None else f'{fault[0]}{fault[1]}'
@@ -1018,18 +1181,22 @@ def protocol_line(d):
         elif op[0] == 'A':
             ops.append('A:' + op[1][0])
         elif op[0] == 'N':
-            _, dt, target, spelling = op
+            dt, target = op[1], op[2]
+            fault = op[4] if len(op) > 4 else None
             dts = '-' if dt is None else ('ac' if dt == 'compat' else 'as' if dt == 'smallest' else
                                           'c%d' % code_of(cls, dt))
+            fs = '-' if fault is None else f'{fault[0]}{fault[1]}'
             # identity of the destination image file: 1 = the file the image was loaded from, however spelled
-            ops.append(f'S:{dts}:-:{len(ops) + 1}:{1 if target == "self" else 0}')
+            ops.append(f'S:{dts}:{fs}:{len(ops) + 1}:{1 if target == "self" else 0}')
         else:
             raise ValueError(op)
     src = 'a'
-    if d.get('load'):
+    if d.get('load') and d['load'].get('wrap'):
+        src = 'v1:' + ','.join(owner_chain(np.asanyarray(img.dataobj)))
+    elif d.get('load'):
         src = ('m1' if isinstance(np.asanyarray(img.dataobj), np.memmap) else 'r1')
     return ('C07 {cmd} {cls} {owned} {off},{dt},{sl},{it} {alias} {aff} {xflip} {src} {exts} {mat} {res} {table} {ops}'.format(
-        cmd='runq' if d.get('op') == 'lrun' else 'run',
+        cmd={'lrun': 'runq', 'nrun': 'runn'}.get(d.get('op'), 'run'),
         cls=cls, owned=int(d['owned']), off=off, dt=dtc, sl=sl, it=it, alias=alias_of(img),
         aff=aff_token(d), xflip=xflip_of(cls, header_of(cls, img)), src=src,
         exts=','.join(f'{a}:{b}' for a, b in exts) or '-', mat=','.join(map(str, trailing)) or '-',
@@ -1047,12 +1214,22 @@ def mk_case(d, stream):
     d.setdefault('op', 'run')
     d['stream'] = stream
     if d['op'] == 'byname':
-        return Case(None, d, ('byname', d['cls'], d['cext'], d.get('setdt'), d.get('n', 2)), stream)
+        return Case(None, d, ('byname', d['cls'], d['cext'], d.get('setdt'), d.get('n', 2), d['data'].get('layout')),
+                    stream)
     if d['op'] == 'gzhdr':
         line = 'C07 gzhdr {kind} {level} {mtime} {clock} {path}'.format(
             kind=d['kind'], level=d['level'], mtime=d.get('mtime', 0), clock=d['clock'],
             path=','.join(str(b) for b in gz_path(d).encode('latin-1')))
         return Case(line, d, ('gzhdr', d['kind'], d['level'], d['clock'], d['name'], d.get('mtime', 0)), stream)
+    if d['op'] == 'wdata':
+        line = 'C07 wdata ' + ' '.join(str(int(b)) for b in d['flags'])
+        return Case(line, d, ('wdata', tuple(d['flags']), d['layout'], tuple(d['shape']), d['order']), stream)
+    if d['op'] == 'mapsfile':
+        try:
+            line = mapsfile_line(d)
+        except Exception as e:
+            line = 'C07 gen-failed ' + type(e).__name__
+        return Case(line, d, ('mapsfile', d['wrap'], d['mode'], d['dt'], d['order'], d['offset']), stream)
     if d['op'] == 'matload':
         try:
             line = matload_line(d)
@@ -1063,9 +1240,13 @@ def mk_case(d, stream):
         line = protocol_line(d)
     except Exception as e:           # generator problem: surfaces as a driver disagreement (`bad-op`)
         line = 'C07 gen-failed ' + type(e).__name__
+    if d['op'] == 'nrun' and d.get('cext') in ('.bz2', '.zst'):
+        # BZ2File / ZstdFile do not support seek() when writing: `seek_tell` takes its absorb path (seek raises,
+        # tell() agrees) on EVERY save, which the model's healthy sink does not do — oracle only for these sinks
+        line = None
     nontrivial = any((op[0] in ('S', 'OS') and (op[1] or op[2])) or op[0] in ('D', 'A', 'N', 'E') for op in d['ops']) \
         or d.get('alias')
-    key = (config_key(d), d['owned'], repr(d['ops'])) if nontrivial else None
+    key = (config_key(d), d['owned'], repr(d['ops']), d.get('cext')) if nontrivial else None
     return Case(line, d, key, stream)
 
 
@@ -1096,6 +1277,49 @@ def default_data(cls, kind='f8'):
     if kind == 'huge':        # range overflows float32: slope inf (SPM: HeaderDataError) / ScalingError (NIfTI)
         return {'dt': 'float64', 'shape': shape, 'lo': 0.0, 'hi': 1.7e308, 'seed': 9}
     raise ValueError(kind)
+
+
+def layout_configs(cls, tier, rng):
+    """configurations that vary the MEMORY LAYOUT of the image's own array (crossed with a save that has to
+    scale / cast it): the array the image holds must be bit-for-bit what it was after every save, failed or not.
+    (name, configuration, dtype= override); names start with `layout:`"""
+    others = [l for l in LAYOUTS if l not in ('C', 'F')]
+    if tier == 'quick':
+        lays = ['F', others[rng.randrange(len(others))]]
+    else:
+        lays = LAYOUTS[1:]
+    slope = cls in NIFTI or cls in ('spm99', 'spm2')
+    out = []
+    for i, lay in enumerate(lays):
+        f8 = dict(default_data(cls, 'f8'), layout=lay)
+        f4 = dict(default_data(cls, 'f4'), layout=lay)
+        if slope:
+            out.append((f'layout:{lay} f8->i2', {'data': f8, 'setdt': 'int16'}, None))
+            if tier != 'quick' or i == 0:
+                out.append((f'layout:{lay} f4,dtype=u1', {'data': f8 if cls in ('spm99', 'spm2') else f4}, 'uint8'))
+        elif cls == 'cifti2':
+            out.append((f'layout:{lay} f8,dtype=i2', {'data': f8}, 'int16'))
+        elif cls == 'analyze':
+            out.append((f'layout:{lay} f8,dtype=f4', {'data': f8}, 'float32'))
+        else:
+            out.append((f'layout:{lay} f4', {'data': f4}, None))
+            if tier != 'quick':
+                out.append((f'layout:{lay} i2 as f4', {'data': dict(default_data(cls, 'i2'), layout=lay),
+                                                        'setdt': 'float32'}, None))
+    # … and non-integer affines (multiples of 1/64; a general oblique one where the model does not compute with it)
+    if cls != 'cifti2':
+        for i, (name, cfg, dt) in enumerate(out):
+            cfg['aff'] = float_affs(cls)[0] if i % 2 == 0 else float_affs(cls)[-1]
+    # 1-D and singleton-dimension arrays (the writer squeezes / promotes them before it loops over slices)
+    if cls != 'cifti2' and (tier != 'quick' or cls in ('n1single', 'spm99', 'mgh')):
+        for shape in ([7], [1, 5, 1]):
+            lay = 'F' if len(shape) > 1 else rng.choice(['C', 'neg', 'strided'])
+            kind = 'f8' if slope else 'f4'
+            cfg = {'data': dict(default_data(cls, kind), shape=shape, layout=lay)}
+            if slope:
+                cfg['setdt'] = 'int16'
+            out.append((f'layout:{lay} shape {shape}', cfg, None))
+    return out
 
 
 def configs(cls, tier):
@@ -1191,6 +1415,8 @@ def rand_history(rng, cls, tier):
     kind = rng.choice(kinds)
     d = {'cls': cls, 'owned': rng.random() < 0.5, 'data': default_data(cls, kind)}
     d['data'] = dict(d['data'], seed=rng.randrange(1000))
+    if rng.random() < 0.6:
+        d['data']['layout'] = rng.choice(LAYOUTS[1:])
     if cls != 'cifti2' and tier != 'quick' and rng.random() < 0.4:
         d['data']['shape'] = rng.choice([[2, 3, 4], [3, 3, 2, 2], [4, 2, 3]] + ([] if cls == 'mgh' else [[6, 5]]))
     if cls in NIFTI and rng.random() < 0.3:
@@ -1198,7 +1424,7 @@ def rand_history(rng, cls, tier):
     if cls != 'cifti2':
         q = rng.random()
         if q < 0.45:
-            d['aff'] = rng.choice(AFFS)
+            d['aff'] = rng.choice(AFFS + float_affs(cls))
         elif q < 0.6 and cls in ANALYZE_FAMILY:
             d['aff'] = None
         if cls in ANALYZE_FAMILY and rng.random() < 0.5:
@@ -1236,7 +1462,7 @@ def rand_history(rng, cls, tier):
             ops.append(['S', dt, fault, None if rng.random() < 0.15 else len(ops) + 1])
         elif r < 0.68 and cls != 'cifti2' and d.get('aff', 'default') is not None:
             if rng.random() < 0.5:
-                ops.append(['E', 'aff', rng.choice(AFFS)])
+                ops.append(['E', 'aff', rng.choice(AFFS + float_affs(cls))])
             else:
                 ops.append(['E', 'hdr', rng.choice(HDR_EDITS)])
         elif r < 0.85:
@@ -1263,7 +1489,7 @@ def loaded_cases(rng, tier):
                     base = {'op': 'lrun', 'cls': cls, 'owned': True, 'data': default_data(cls, kind),
                             'load': {'cext': cext, 'mmap': mmap, 'spell': rng.choice(['abs', 'rel', 'dot'])}}
                     if cls in ANALYZE_FAMILY + NIFTI and rng.random() < 0.5:
-                        base['aff'] = rng.choice(AFFS)
+                        base['aff'] = rng.choice(AFFS + float_affs(cls))
                     # every spelling of the source path as the destination of a self-overwrite, each followed by a
                     # save elsewhere (reads the image's data again) and a second self-overwrite
                     spells = SPELLINGS if (tier != 'quick' or kind == kinds[0]) else [rng.choice(SPELLINGS)]
@@ -1271,6 +1497,15 @@ def loaded_cases(rng, tier):
                         ops = [['N', None, 'self', sp], ['N', None, 'other1', rng.choice(SPELLINGS)],
                                ['N', None, 'self', rng.choice(SPELLINGS)], ['N', None, 'other2', 'abs']]
                         out.append(mk_case(dict(base, ops=ops), 'loaded'))
+                    # an image HOLDING a view of the source's memory map (made in several ways), saved onto that file
+                    if mmap and not cext and cls != 'cifti2' and kind == kinds[0]:
+                        wraps = IMG_WRAPS if tier != 'quick' else [IMG_WRAPS[(CLASSES.index(cls) + rng.randrange(4)) % 4]]
+                        for wr in wraps:
+                            wbase = dict(base, load=dict(base['load'], wrap=wr))
+                            for sp in (SPELLINGS if tier != 'quick' else [rng.choice(SPELLINGS)]):
+                                ops = [['N', None, 'self', sp], ['N', None, 'other1', 'rel'],
+                                       ['N', None, 'self', rng.choice(SPELLINGS)]]
+                                out.append(mk_case(dict(wbase, ops=ops), 'loaded'))
                     # saves elsewhere first (dtype= overrides allowed), then onto the source
                     n = 1 if tier == 'quick' else 3
                     for _ in range(n):
@@ -1281,6 +1516,40 @@ def loaded_cases(rng, tier):
                         ops.append(['N', None, 'self', rng.choice(SPELLINGS)])
                         ops.append(['N', None, 'other1', 'rel'])
                         out.append(mk_case(dict(base, ops=ops), 'loaded'))
+    return out
+
+
+def nrun_cases(rng, tier):
+    """saves BY NAME with a fault at EVERY I/O call index of a clean save (and byte budgets), per class x plain /
+    compressed destination x save API x configuration (scaling, memory layout of the array), each followed by a
+    healthy save under another name at another time and a retry onto the partially written destination"""
+    out = []
+    cexts = ['', '.gz'] if tier == 'quick' else ['', '.gz', '.bz2', '.zst']
+    for cls in CLASSES:
+        cfgs, lcf = configs(cls, tier), layout_configs(cls, tier, rng)
+        chosen = [cfgs[0], lcf[0]] if tier == 'quick' else cfgs[:4] + lcf[:3]
+        for ci, (name, cfg, dt) in enumerate(chosen):
+            for xi, cext in enumerate(cexts):
+                if (cls == 'mgh' and cext in ('.bz2', '.zst')) or (cls == 'cifti2' and cext):
+                    continue          # not valid file names for these classes
+                if tier == 'quick' and ci == 1 and cext == '' and cls != 'cifti2':
+                    continue
+                d0 = dict(cfg, cls=cls, owned=True, op='nrun', cext=cext)
+                n, nbytes = clean_calls(dict(cfg, cls=cls, owned=True, ops=[]), True, dt)
+                for k in range(1, n + 2):
+                    api, api2 = NRUN_APIS[(k + ci + xi) % 3], NRUN_APIS[(k + ci + xi + 1) % 3]
+                    ops = [['N', dt, 'first', api, ['k', k]], ['N', dt, 'other_name', api2, None],
+                           ['N', dt, 'first', api, None]]
+                    if k % 3 == 0:
+                        ops.append(['N', None, 'third', 'to_filename', None])
+                    out.append(mk_case(dict(d0, ops=ops), 'nrun'))
+                budgets = {0, 347, 352, max(nbytes - 1, 0)} if tier == 'quick' else \
+                    set(range(0, nbytes + 40, 97)) | {347, 348, 352, 540, 544, max(nbytes - 1, 0), nbytes}
+                if tier == 'quick' and (ci or xi):
+                    budgets = {rng.choice(sorted(budgets))}
+                for b in sorted(budgets):
+                    ops = [['N', dt, 'first', rng.choice(NRUN_APIS), ['b', b]], ['N', dt, 'second', 'save', None]]
+                    out.append(mk_case(dict(d0, ops=ops), 'nrun'))
     return out
 
 
@@ -1296,16 +1565,26 @@ def cases(rng, tier):
     out = []
     # ---- every fault point of every class / mode / configuration
     for cls in CLASSES:
+        lcfgs = layout_configs(cls, tier, rng)
         for owned in (False, True):
-            for name, cfg, dt in configs(cls, tier):
+            for name, cfg, dt in configs(cls, tier) + lcfgs:
+                lay = name.startswith('layout:')
+                if lay and tier == 'quick' and owned:
+                    continue
                 d0 = dict(cfg, cls=cls, owned=owned)
                 d0.setdefault('ops', [])
                 n, nbytes = clean_calls(d0, owned, dt)
+                one_file = len(klass_of(cls).files_types) == 1 and not owned
                 for k in range(1, n + 2):
-                    d = dict(d0, ops=[['S', dt, ['k', k], 1], ['S', dt, None, 2], ['S', None, None, 3]] +
+                    # single-file classes, caller's stream: every third faulted save and its retry go through
+                    # `img.to_stream(stream)` (the serialisation API) instead of `to_file_map(file_map)`
+                    via = ['to_stream'] if (one_file and k % 3 == 1) else []
+                    d = dict(d0, ops=[['S', dt, ['k', k], 1] + via, ['S', dt, None, 2] + via, ['S', None, None, 3]] +
                              ([['S', dt, None, None]] if k % 3 == 0 else []))      # … and `to_file_map()` (own file_map)
                     out.append(mk_case(d, 'faults'))
                 # byte budgets
+                if lay and tier == 'quick':
+                    continue
                 if tier == 'quick':
                     budgets = sorted({0, 100, 347, 348, 352, 400, max(nbytes - 1, 0), nbytes})
                 else:
@@ -1324,7 +1603,8 @@ def cases(rng, tier):
         base = {'cls': cls, 'data': default_data(cls, kind)}
         if cls not in ('mgh', 'analyze'):
             base['setdt'] = 'int16'
-        edits = [['E', 'aff', AFFS[1]], ['E', 'aff', AFFS[4]], ['E', 'hdr', 'zooms'], ['E', 'hdr', 'descrip']]
+        edits = [['E', 'aff', AFFS[1]], ['E', 'aff', AFFS[4]], ['E', 'hdr', 'zooms'], ['E', 'hdr', 'descrip'],
+                 ['E', 'aff', float_affs(cls)[-1]]]
         if tier != 'quick':
             edits += [['E', 'aff', AFFS[2]], ['E', 'hdr', 'zooms2'], ['E', 'hdr', 'dbname']]
         for e in edits:
@@ -1338,6 +1618,8 @@ def cases(rng, tier):
                     out.append(mk_case(dict(base, owned=owned, ops=ops), 'edit'))
     # ---- images LOADED from a file, saved by name onto their own source (every spelling) and elsewhere
     out.extend(loaded_cases(rng, tier))
+    # ---- saves by NAME with faults injected into the files nibabel opens itself
+    out.extend(nrun_cases(rng, tier))
     # ---- gzip member header: nibabel's sink (and plain GzipFile) x level x clock x file name
     names = ['a.nii.gz', 'other_name.img.gz', 'x.gz', 'y.hdr.gz', 'b.mgz']
     for kind in ('nib', 'plain'):
@@ -1356,21 +1638,35 @@ def cases(rng, tier):
                     for keys in ('both', 'mat', 'M') + (('none',) if flipw and flipr else ()):
                         out.append(mk_case({'op': 'matload', 'cls': cls, 'aff': aff, 'flipw': flipw, 'flipr': flipr,
                                             'keys': keys}, 'matload'))
+    # ---- maps_file: every way of reaching a memory map x map mode x dtype x order x offset
+    for wrap in WRAPS:
+        for mode in ('r', 'c', 'r+'):
+            combos = [('uint8', 'F', 64), ('int16', 'C', 16), ('float32', '1', 0)]
+            for dt, order, off in (combos if tier != 'quick' else [combos[rng.randrange(3)]]):
+                out.append(mk_case({'op': 'mapsfile', 'wrap': wrap, 'mode': mode, 'dt': dt, 'order': order,
+                                    'offset': off}, 'mapsfile'))
+    # ---- the slice loop of _write_data: EVERY combination of its eight branches x array layout x order
+    import itertools
+    for flags in itertools.product((0, 1), repeat=8):
+        lays = [('F', [5, 4, 3], 'F'), ('C', [5, 4, 3], 'F'), ('Fro', [4, 3], 'F'), ('C', [6], 'F'), ('F', [3, 4], 'C')]
+        for lay, shape, order in (lays if tier != 'quick' else [lays[0], lays[1 + rng.randrange(4)]]):
+            out.append(mk_case({'op': 'wdata', 'flags': list(flags), 'layout': lay, 'shape': shape, 'order': order},
+                               'wdata'))
     # ---- by file name, compressed
     for cls in CLASSES:
         for ext in ('', '.gz', '.bz2', '.zst'):
             for setdt in ((None, 'int16') if cls != 'mgh' else (None,)):
-                out.append(mk_case({'op': 'byname', 'cls': cls, 'cext': ext, 'setdt': setdt,
-                                    'data': default_data(cls, 'f4' if cls in ('mgh', 'analyze') else 'f8'), 'ops': []},
+                data = dict(default_data(cls, 'f4' if cls in ('mgh', 'analyze') else 'f8'), layout=rng.choice(LAYOUTS))
+                out.append(mk_case({'op': 'byname', 'cls': cls, 'cext': ext, 'setdt': setdt, 'data': data, 'ops': []},
                                    'byname'))
     return out
 
 
 def shrink_candidates(case):
     d = case.data
-    if d.get('op') in ('gzhdr', 'matload', 'byname'):
+    if d.get('op') in ('gzhdr', 'matload', 'byname', 'mapsfile', 'wdata'):
         return
-    if d.get('op') == 'lrun':
+    if d.get('op') in ('lrun', 'nrun'):
         ops = d['ops']
         for i in range(len(ops)):
             if len(ops) > 1:
@@ -1389,7 +1685,7 @@ def shrink_candidates(case):
             yield mk_case(d2, d.get('stream', 'shrunk'))
     for i, op in enumerate(ops):
         if op[0] == 'S' and op[1] is not None:
-            yield mk_case(dict(d, ops=ops[:i] + [[op[0], None, op[2], op[3]]] + ops[i + 1:]), d.get('stream', 'shrunk'))
+            yield mk_case(dict(d, ops=ops[:i] + [[op[0], None] + op[2:]] + ops[i + 1:]), d.get('stream', 'shrunk'))
 
 
 # ------------------------------------------------------------------ implementation side
@@ -1416,8 +1712,8 @@ def state_token(cls, img, hdr0, fm_ids, hseen, aseen, dseen):
             f'x{xflip_of(cls, hdr)},d{did}')
 
 
-def mat_ints(raw):
-    """the variables M and mat of a MATLAB-4 `.mat` file as exact integers (or 'nonint')"""
+def mat_ints(raw, scale=1):
+    """the variables M and mat of a MATLAB-4 `.mat` file, times `scale`, as exact integers (or 'nonint')"""
     import scipy.io as sio
     mats = sio.loadmat(io.BytesIO(raw))
     out = []
@@ -1425,7 +1721,7 @@ def mat_ints(raw):
         if k not in mats:
             out.append('-')
             continue
-        a = np.asarray(mats[k], dtype=np.float64)
+        a = np.asarray(mats[k], dtype=np.float64) * (scale or 1)
         if a.shape != (4, 4) or not np.all(a == np.round(a)):
             out.append('nonint')
         else:
@@ -1433,10 +1729,10 @@ def mat_ints(raw):
     return out
 
 
-def mat_token(bmap):
+def mat_token(bmap, scale=1):
     if not bmap or not bmap.get('mat'):
         return ''
-    M, mat = mat_ints(bmap['mat'])
+    M, mat = mat_ints(bmap['mat'], scale)
     return f' M={M}/{mat}'
 
 
@@ -1480,6 +1776,142 @@ def oracle_gzhdr(case, out):
     if hdr != want:
         return (f'gzip header written by nibabel for {d["name"]!r} at clock {d["clock"]} is {hdr}: it depends on the '
                 f'clock or the file name (expected {want}), so two saves of an unchanged image are not byte-identical')
+    return None
+
+
+# ---- `volumeutils.maps_file` and arrays that VIEW a memory map
+
+def owner_chain(a):
+    """letters of the chain of owners of `a` (M np.memmap, m mmap.mmap, v memoryview, n ndarray, o anything else)"""
+    import mmap
+    out = []
+    while a is not None and len(out) < 40:
+        out.append('M' if isinstance(a, np.memmap) else 'm' if isinstance(a, mmap.mmap) else
+                   'v' if isinstance(a, memoryview) else 'n' if isinstance(a, np.ndarray) else 'o')
+        a = a.obj if isinstance(a, memoryview) else getattr(a, 'base', None)
+    return out
+
+
+def wrap_array(kind, mm):
+    """an array object with the values (and shape) of the np.memmap `mm`, reached in another way"""
+    import mmap
+    from numpy.lib.stride_tricks import as_strided
+    if kind == 'memmap':
+        return mm
+    if kind == 'asarray':
+        return np.asarray(mm)
+    if kind == 'slice':
+        return np.asarray(mm)[...][tuple(slice(None) for _ in mm.shape)]
+    if kind == 'mmslice':
+        return mm[tuple(slice(None) for _ in mm.shape)]
+    if kind == 'memoryview':
+        return np.asarray(memoryview(mm))
+    if kind == 'frombuffer':
+        flat = np.frombuffer(mm._mmap, dtype=mm.dtype, count=mm.size, offset=mm.offset % mmap.ALLOCATIONGRANULARITY)
+        return flat.reshape(mm.shape, order='F' if mm.flags.f_contiguous else 'C')
+    if kind == 'strided':
+        return as_strided(mm, shape=mm.shape, strides=mm.strides)
+    if kind == 'strided2':
+        return as_strided(np.asarray(mm), shape=mm.shape, strides=mm.strides)[...]
+    if kind == 'copy':
+        return np.array(mm)
+    if kind == 'ufunc':
+        return mm + 0
+    if kind == 'plain':
+        return np.zeros(mm.shape, mm.dtype)
+    if kind == 'frombytes':
+        return np.frombuffer(mm.tobytes(), dtype=mm.dtype)
+    if kind == 'mmcopy':
+        return mm.copy()
+    raise ValueError(kind)
+
+
+WRAPS = ['memmap', 'asarray', 'slice', 'mmslice', 'memoryview', 'frombuffer', 'strided', 'strided2', 'copy', 'ufunc',
+         'plain', 'frombytes', 'mmcopy']
+IMG_WRAPS = ['asarray', 'memoryview', 'frombuffer', 'strided']
+
+
+def _mapsfile_object(d, tmp):
+    fn = os.path.join(tmp, 'm.bin')
+    n = 24
+    np.arange(64 + n, dtype=np.uint8).tofile(fn)
+    dt = np.dtype(d['dt'])
+    cnt = n // dt.itemsize
+    shape = (cnt,) if d['order'] == '1' else (2, cnt // 2)
+    mm = np.memmap(fn, dtype=dt, mode=d['mode'], offset=d['offset'], shape=shape, order='F' if d['order'] == 'F' else 'C')
+    return mm, wrap_array(d['wrap'], mm)
+
+
+def mapsfile_line(d):
+    with tempfile.TemporaryDirectory(prefix='c07_mf_') as tmp:
+        mm, a = _mapsfile_object(d, tmp)
+        chain = owner_chain(a)
+        del a, mm
+    return 'C07 mapsfile ' + (','.join(chain) or '-')
+
+
+def impl_mapsfile(case):
+    from nibabel.volumeutils import maps_file
+    d = case.data
+    with tempfile.TemporaryDirectory(prefix='c07_mf_') as tmp:
+        mm, a = _mapsfile_object(d, tmp)
+        got = bool(maps_file(a))
+        # ground truth, independent of any owner chain: does the memory of `a` lie inside the mapping?
+        whole = np.frombuffer(mm._mmap, dtype=np.uint8)
+        lo = whole.__array_interface__['data'][0]
+        addr = a.__array_interface__['data'][0]
+        inside = lo <= addr < lo + whole.size
+        case.extra = {'inside': bool(inside), 'got': got, 'chain': owner_chain(a)}
+        del whole, a, mm
+    return '1' if got else '0'
+
+
+def oracle_mapsfile(case, out):
+    ex = case.extra or {}
+    if 'inside' not in ex:
+        return f'maps_file did not run: {out}'
+    if ex['inside'] and not ex['got']:
+        return (f'maps_file answers False for an array made by {case.data["wrap"]!r} from a memory map (owners '
+                f'{ex["chain"]}) although its memory lies inside the mapping: to_file_map would open (truncate) the '
+                f'mapped file under the image\'s data')
+    return None
+
+
+# ---- the slice loop of `volumeutils._write_data`: does it store into the caller's array?
+
+WDATA_FLAGS = ('preClips', 'inCast', 'inter', 'slope', 'postClips', 'nanFill', 'anyNan', 'castOut')
+
+
+def impl_wdata(case):
+    from nibabel.volumeutils import _write_data
+    d = case.data
+    f = dict(zip(WDATA_FLAGS, d['flags']))
+    rs = np.random.RandomState(11)
+    a = rs.uniform(-50, 50, size=tuple(d['shape']))
+    if f['anyNan']:
+        a.flat[3] = np.nan
+        a.flat[-2] = np.nan
+    a = lay_out(a, d['layout'])
+    before = array_memory(a)
+    sink = io.BytesIO()
+    try:
+        _write_data(a, sink, np.dtype(np.int16 if f['castOut'] else np.float64), d['order'],
+                    in_cast=np.float64 if f['inCast'] else None, pre_clips=(-40.0, 40.0) if f['preClips'] else None,
+                    inter=3.0 if f['inter'] else 0.0, slope=0.5 if f['slope'] else 1.0,
+                    post_clips=(-30.0, 30.0) if f['postClips'] else None, nan_fill=0 if f['nanFill'] else None)
+    except Exception as e:
+        case.extra = {'err': repr(e)}
+        return canon_err(e)
+    case.extra = {'n': len(sink.getvalue())}
+    return '0' if array_memory(a) == before else '1'
+
+
+def oracle_wdata(case, out):
+    d = case.data
+    if out != '0':
+        on = [n for n, v in zip(WDATA_FLAGS, d['flags']) if v]
+        return (f'_write_data on a {d["layout"]}-layout float64 array of shape {d["shape"]} (order={d["order"]}, steps '
+                f'taken: {on}) changed the memory of the array it was given: {out} {(case.extra or {}).get("err", "")}')
     return None
 
 
@@ -1565,8 +1997,14 @@ def impl(case):
         return impl_gzhdr(case)
     if d.get('op') == 'matload':
         return impl_matload(case)
+    if d.get('op') == 'mapsfile':
+        return impl_mapsfile(case)
+    if d.get('op') == 'wdata':
+        return impl_wdata(case)
     if d.get('op') == 'lrun':
         return impl_loaded(case)
+    if d.get('op') == 'nrun':
+        return impl_nrun(case)
     cls = d['cls']
     img = build(d)
     hdr0 = header_of(cls, img)
@@ -1582,7 +2020,8 @@ def impl(case):
     edited = False
     for j, op in enumerate(d['ops'], 1):
         if op[0] in ('S', 'OS'):
-            _, dt, fault, fmid = op
+            _, dt, fault, fmid = op[:4]
+            api = op[4] if len(op) > 4 else 'to_file_map'
             before = full_state(cls, img)
             harm = before
             if edited:
@@ -1590,6 +2029,8 @@ def impl(case):
                 c = copy.deepcopy(img)
                 c.update_header()
                 harm = full_state(cls, c)
+                for key in OBJECT_KEYS:        # identity / memory of the array object: those of the image itself
+                    harm[key] = before[key]
             budget = Budget(fault[1] if fault and fault[0] == 'k' else None, fault[1] if fault and fault[0] == 'b' else None)
             fm = make_map(cls, budget, d['owned'])
             kw = {} if dt is None else {'dtype': parse_dt(dt)}
@@ -1603,17 +2044,25 @@ def impl(case):
                 keep.append(fm)
                 args = (fm,)
             try:
-                img.to_file_map(*args, **kw)
+                if api == 'to_stream':
+                    # the serialisation API of the single-file classes: `to_stream(io_obj)` builds its own file_map
+                    # around the caller's stream and calls `to_file_map`
+                    img.to_stream(fm[klass_of(cls).files_types[0][0]].fileobj, **kw)
+                else:
+                    img.to_file_map(*args, **kw)
                 res = 'ok'
             except Exception as e:
                 res = canon_err(e)
+            if api == 'to_stream' and id(img.file_map) not in fm_ids:
+                fm_ids[id(img.file_map)] = fmid
+                keep.append(img.file_map)
             after = full_state(cls, img)
             bmap = map_bytes(fm) if res == 'ok' else None
             oid = first_seen(oseen, digest(bmap)) if bmap is not None else '-'
             recs.append({'j': j, 'op': op, 'res': res, 'before': before, 'after': after, 'bytes': bmap,
                          'log': list(budget.log), 'harm': harm,
                          'aff_now': None if getattr(img, '_affine', None) is None else np.array(img._affine)})
-            parts.append(f'{res} n={budget.count} [{",".join(budget.log)}] {state()} out={oid}{mat_token(bmap)}')
+            parts.append(f'{res} n={budget.count} [{",".join(budget.log)}] {state()} out={oid}{mat_token(bmap, aff_scale(d))}')
         elif op[0] in ('D', 'A'):
             try:
                 img.set_data_dtype(np.dtype(op[1]) if op[0] == 'D' else op[1])
@@ -1646,6 +2095,7 @@ def _loaded_child(d, conn):
             make_source(d, root)
             k = klass_of(cls)
             img = k.from_filename(spelled(root, cls, 'vol', ld['cext'], ld.get('spell', 'abs')), mmap=ld['mmap'])
+            img = rewrap(cls, img, ld)
             if d.get('setdt'):
                 img.set_data_dtype(np.dtype(d['setdt']))
             if cls != 'cifti2':
@@ -1700,7 +2150,7 @@ def _loaded_child(d, conn):
                 if bmap and bmap.get('.mat' + ld['cext']):
                     from nibabel.openers import Opener
                     with Opener(os.path.join(root, stem + '.mat' + ld['cext']), 'rb') as mf:
-                        mat = mat_token({'mat': mf.read()})
+                        mat = mat_token({'mat': mf.read()}, aff_scale(d))
                 recs.append(rec)
                 parts.append(f'{res} {state()} out={oid}{mat}')
             conn.send((' | '.join(parts), recs))
@@ -1741,6 +2191,174 @@ def impl_loaded(case):
     return out
 
 
+# ---- saves BY FILE NAME through instrumented openers: every write / seek / tell / flush / close call that nibabel
+#      makes on a file it opened itself can fail
+
+class NamedFaulty:
+    """the file object `Opener` opened by name for writing (plain file, gzip / bz2 / zstd sink), instrumented like
+    `FaultyFile`; everything else is delegated to the real object"""
+
+    def __init__(self, real, letter, budget):
+        self.real, self.letter, self.budget = real, letter, budget
+
+    def write(self, b):
+        n = len(b)
+        self.budget.tick(f'{self.letter}w{n}')
+        bb = self.budget.byte_budget
+        if bb is not None and self.budget.written + n > bb:
+            fit = bb - self.budget.written
+            self.real.write(bytes(b)[:fit])
+            self.budget.written = bb
+            raise OSError(errno.ENOSPC, 'No space left on device (injected: byte budget)')
+        self.budget.written += n
+        return self.real.write(b)
+
+    def seek(self, pos, whence=0):
+        self.budget.tick(f'{self.letter}s{int(pos)}' + ('' if whence == 0 else f'/{whence}'))
+        return self.real.seek(pos, whence)
+
+    def tell(self):
+        self.budget.tick(f'{self.letter}t')
+        return self.real.tell()
+
+    def flush(self):
+        self.budget.tick(f'{self.letter}f')
+        return self.real.flush()
+
+    def close(self):
+        try:
+            self.budget.tick(f'{self.letter}c')
+        finally:
+            self.real.close()
+
+    def __getattr__(self, name):
+        return getattr(self.real, name)
+
+
+COMPRESS_EXTS = ('.gz', '.bz2', '.zst')
+
+
+def instrumented_openers(cls, budget):
+    """context manager: every file that nibabel's `Opener` opens by name FOR WRITING is wrapped in `NamedFaulty`"""
+    import contextlib
+    from nibabel.openers import Opener
+    letters = {ext: key[0] for key, ext in klass_of(cls).files_types}
+    letters['.mgz'] = 'i'
+
+    def letter_of(path):
+        p = str(path)
+        for c in COMPRESS_EXTS:
+            if p.endswith(c):
+                p = p[:-len(c)]
+        return letters.get(os.path.splitext(p)[1], 'i')
+
+    @contextlib.contextmanager
+    def cm():
+        orig = Opener._get_opener_argnames
+
+        def patched(self, fileish):
+            opener, names = orig(self, fileish)
+
+            def wrapped(f, *a, **k):
+                mode = k.get('mode', a[0] if a else 'rb')
+                real = opener(f, *a, **k)
+                return NamedFaulty(real, letter_of(f), budget) if 'w' in mode else real
+            return wrapped, names
+        Opener._get_opener_argnames = patched
+        try:
+            yield
+        finally:
+            Opener._get_opener_argnames = orig
+    return cm()
+
+
+NRUN_APIS = ['to_filename', 'save', 'setfn']
+
+
+def impl_nrun(case):
+    """history of saves BY NAME (`img.to_filename(p)` | `nibabel.save(img, p)` | `img.set_filename(p);
+    img.to_file_map()`), plain or compressed, with a fault at the k-th I/O call / a byte budget, the wall clock moved
+    and the base name changed between saves"""
+    import time
+    from unittest import mock
+    from nibabel.openers import ImageOpener
+    d = case.data
+    cls, cext = d['cls'], d['cext']
+    n = nib()
+    img = build(d)
+    hdr0 = header_of(cls, img)
+    fm_ids = {id(img.file_map): 0}
+    keep = [img.file_map]
+    hseen, oseen, aseen, dseen = {}, {}, {}, {}
+    state = lambda: state_token(cls, img, hdr0, fm_ids, hseen, aseen, dseen)
+    parts, recs = [state()], []
+    real_time = time.time
+    with tempfile.TemporaryDirectory(prefix='c07_n_') as tmp:
+        for j, op in enumerate(d['ops'], 1):
+            _, dt, target, api, fault = op
+            before = full_state(cls, img)
+            budget = Budget(fault[1] if fault and fault[0] == 'k' else None, fault[1] if fault and fault[0] == 'b' else None)
+            path = os.path.join(tmp, target_name(cls, target, cext))
+            kw = {} if dt is None else {'dtype': parse_dt(dt)}
+            try:
+                with mock.patch('time.time', lambda: real_time() + 86400.0 * 5 * j + 7 * j), \
+                        instrumented_openers(cls, budget):
+                    if api == 'save':
+                        n.save(img, path, **kw)
+                    elif api == 'setfn':
+                        img.set_filename(path)
+                        img.to_file_map(**kw)
+                    else:
+                        img.to_filename(path, **kw)
+                res = 'ok'
+            except Exception as e:
+                res = canon_err(e)
+            if id(img.file_map) not in fm_ids:
+                fm_ids[id(img.file_map)] = j
+                keep.append(img.file_map)
+            after = full_state(cls, img)
+            raw = plain = None
+            if res == 'ok':
+                raw, plain = {}, {}
+                for key, e in klass_of(cls).files_types:
+                    fn = os.path.join(tmp, target + ('.mgz' if (cls == 'mgh' and cext) else e + cext))
+                    if os.path.exists(fn):
+                        raw[key] = open(fn, 'rb').read()
+                        with ImageOpener(fn, 'rb') as f:
+                            plain[key] = f.read()
+                    else:
+                        raw[key] = plain[key] = b''
+            oid = first_seen(oseen, digest(raw)) if raw is not None else '-'
+            recs.append({'j': j, 'op': ['S', dt, fault, j], 'nop': op, 'res': res, 'before': before, 'after': after,
+                         'harm': before, 'bytes': plain, 'raw': raw, 'log': list(budget.log),
+                         'aff_now': None if getattr(img, '_affine', None) is None else np.array(img._affine)})
+            parts.append(f'{res} n={budget.count} [{",".join(budget.log)}] {state()} out={oid}{mat_token(plain, aff_scale(d))}')
+    case.extra = {'recs': recs}
+    return ' | '.join(parts)
+
+
+def oracle_nrun(case, out):
+    d = case.data
+    ex = case.extra or {}
+    if out.startswith('ERR:') or 'recs' not in ex:
+        return f'running the history raised outside any save: {out}'
+    bad = oracle_recs(d, ex['recs'])
+    if bad:
+        return bad
+    by_dt = {}
+    for rec in ex['recs']:
+        if rec['res'] != 'ok':
+            continue
+        _, dt, target, api, fault = rec['nop']
+        prev = by_dt.setdefault(dt, (rec['raw'], rec['j'], target))
+        if prev[0] != rec['raw']:
+            badk = [k for k in rec['raw'] if rec['raw'][k] != prev[0].get(k)]
+            return (f'{d["cls"]} save #{rec["j"]} by name ({api}, *{d["cext"] or "(plain)"}, dtype={dt}) onto {target}: files '
+                    f'{badk} are not byte-identical to those of save #{prev[1]} (onto {prev[2]}, at another time) of the '
+                    f'unchanged image')
+    return None
+
+
 def impl_byname(case):
     import time
     from unittest import mock
@@ -1757,7 +2375,7 @@ def impl_byname(case):
         for i, name in enumerate(('first', 'second_with_other_name', 'third')):
             sub = os.path.join(tmp, str(i))
             os.mkdir(sub)
-            fn = os.path.join(sub, name + primary + d['cext'])
+            fn = os.path.join(sub, target_name(cls, name, d['cext']))      # MGH: `.mgz`
             real = time.time
             try:
                 with mock.patch('time.time', lambda: real() + 86400.0 * 3 * i + 5 * i):
@@ -1926,17 +2544,32 @@ def oracle(case, out):
         return oracle_gzhdr(case, out)
     if d.get('op') == 'matload':
         return oracle_matload(case, out)
+    if d.get('op') == 'mapsfile':
+        return oracle_mapsfile(case, out)
+    if d.get('op') == 'wdata':
+        return oracle_wdata(case, out)
+    if d.get('op') == 'nrun':
+        return oracle_nrun(case, out)
     if out.startswith('ERR:'):
         return f'running the history raised outside any save: {out}'
+    return oracle_recs(d, ex['recs'])
+
+
+def oracle_recs(d, recs):
+    """the property on a recorded history: every save (failed or not) left the image as it was (or harmonised),
+    every completed save wrote the bytes a first clean save of a fresh identical image writes, and those decode"""
     cls = d['cls']
     applied = []
-    for rec in ex['recs']:
+    for rec in recs:
         op = rec['op']
         if op[0] in ('D', 'A', 'E'):
             applied.append(op)
             continue
-        _, dt, fault, _ = op
-        desc = (f'{cls} save #{rec["j"]} (dtype={dt}, fault={fault}, owned={d["owned"]}, result {rec["res"]}, '
+        _, dt, fault, _ = op[:4]
+        how = f'owned={d["owned"]}' + (f', through {op[4]}' if len(op) > 4 else '')
+        if rec.get('nop'):
+            how = f'by name through {rec["nop"][3]} onto {rec["nop"][2]}*{d.get("cext") or "(plain)"}'
+        desc = (f'{cls} save #{rec["j"]} (dtype={dt}, fault={fault}, {how}, result {rec["res"]}, '
                 f'I/O calls {len(rec["log"])})')
         # the image after the save is the image before it, or — after an in-place edit of affine / header —
         # that image with update_header() applied (computed on a deep copy); the latter if the save succeeded
@@ -2037,6 +2670,10 @@ def signature(case, what):
         return 'gzip:header-not-deterministic'
     if d.get('op') == 'matload':
         return f'matload:{d["cls"]}:{d["keys"]}'
+    if d.get('op') == 'mapsfile':
+        return f'mapsfile:{d["wrap"]}'
+    if d.get('op') == 'wdata':
+        return 'write_data:stores-into-input'
     if d.get('op') == 'lrun':
         kind = ('crash' if 'process died' in what else 'state-changed' if 'changed the image' in what else
                 'not-identical' if 'byte-identical' in what else 'decode')
